@@ -44,6 +44,43 @@ fn collect_bounded<I: Iterator>(it: I, budget: usize) -> (Vec<I::Item>, bool) {
     (v, false)
 }
 
+/// The provided `Iterator` methods must agree with `next()` at every point of consumption: an
+/// override of `last` / `count` / `nth` / `size_hint` (a plausible optimisation) is part of what
+/// the iterator yields.
+fn provided_methods<I>(name: &str, start: usize, mk: &dyn Fn() -> I, seq: &[I::Item], v: &mut Vec<Viol>)
+where
+    I: Iterator + Clone,
+    I::Item: PartialEq + Copy + std::fmt::Debug,
+{
+    let len = seq.len();
+    if len > 24 {
+        return;
+    }
+    for k in [0, len / 2, len, len + 1] {
+        let mut it = mk();
+        for _ in 0..k {
+            it.next();
+        }
+        let k = k.min(len);
+        let rest = &seq[k..];
+        let (lo, hi) = it.size_hint();
+        let mut bad: Option<String> = None;
+        if lo > rest.len() || hi.is_some_and(|h| h < rest.len()) {
+            bad = Some(format!("size_hint ({}, {:?}) with {} items left", lo, hi, rest.len()));
+        } else if it.clone().count() != rest.len() {
+            bad = Some(format!("count() = {} with {} items left", it.clone().count(), rest.len()));
+        } else if it.clone().last() != rest.last().copied() {
+            bad = Some(format!("last() = {:?}, expected {:?}", it.clone().last(), rest.last()));
+        } else if it.clone().nth(1) != rest.get(1).copied() {
+            bad = Some(format!("nth(1) = {:?}, expected {:?}", it.clone().nth(1), rest.get(1)));
+        }
+        if let Some(b) = bad {
+            v.push(viol("C09", "provided_method_disagrees_with_next", format!("{} from {} after {} pulls: {}", name, start, k, b)));
+            return;
+        }
+    }
+}
+
 fn ids_str(v: &[NodeId]) -> String {
     let s: Vec<String> = v.iter().map(|i| slot_of(*i).to_string()).collect();
     format!("[{}]", s.join(","))
@@ -182,6 +219,16 @@ impl<T: Payload> World<T> {
             node_check("children", collect_bounded(sid.children(arena), budget), &kids);
             node_check("reverse_children", collect_bounded(sid.reverse_children(arena), budget), &rkids);
             node_check("descendants", collect_bounded(sid.descendants(arena), budget), &desc);
+            if v.is_empty() {
+                let st = slot_of(sid);
+                provided_methods("ancestors", st, &|| sid.ancestors(arena), &self.ids(&anc), &mut v);
+                provided_methods("predecessors", st, &|| sid.predecessors(arena), &self.ids(&pred), &mut v);
+                provided_methods("preceding_siblings", st, &|| sid.preceding_siblings(arena), &self.ids(&preceding), &mut v);
+                provided_methods("following_siblings", st, &|| sid.following_siblings(arena), &self.ids(&following), &mut v);
+                provided_methods("children", st, &|| sid.children(arena), &self.ids(&kids), &mut v);
+                provided_methods("reverse_children", st, &|| sid.reverse_children(arena), &self.ids(&rkids), &mut v);
+                provided_methods("descendants", st, &|| sid.descendants(arena), &self.ids(&desc), &mut v);
+            }
 
             let exp_t: Vec<NodeEdge> = trav.iter().map(edge_id).collect();
             let exp_r: Vec<NodeEdge> = exp_t.iter().rev().copied().collect();
@@ -223,6 +270,10 @@ impl<T: Payload> World<T> {
             };
             edge_check("traverse", collect_bounded(sid.traverse(arena), 2 * budget), &exp_t);
             edge_check("reverse_traverse", collect_bounded(sid.reverse_traverse(arena), 2 * budget), &exp_r);
+            if v.is_empty() {
+                provided_methods("traverse", slot_of(sid), &|| sid.traverse(arena), &exp_t, &mut v);
+                provided_methods("reverse_traverse", slot_of(sid), &|| sid.reverse_traverse(arena), &exp_r, &mut v);
+            }
             // stepping with next_traverse / prev_traverse reproduces the two sequences
             let mut step_f = vec![NodeEdge::Start(sid)];
             let mut cur = NodeEdge::Start(sid);
@@ -792,6 +843,18 @@ impl<T: Payload> World<T> {
             }
         }
         self.stats.probe("capacity_probe");
+        if n == u32::MAX {
+            // no such room can exist: the documented outcome is a panic (capacity overflow); an arena
+            // that comes back without room for n breaks the guarantee
+            let r = catch(|| Arena::<u8>::with_capacity(usize::MAX).capacity());
+            self.stats.probe("with_capacity_usize_max");
+            if let Ok(c) = r {
+                if c < usize::MAX {
+                    viols.push(viol("C13", "with_capacity_too_small", format!("Arena::<u8>::with_capacity(usize::MAX) returned an arena with capacity {}", c)));
+                }
+            }
+            return;
+        }
         let n = n as usize;
         match ty % 6 {
             0 => probe::<()>(n, "()", viols),
